@@ -2,7 +2,7 @@
 From Coq Require Import String.
 From Coq Require Import List Bool Arith NArith ZArith Lia.
 Import ListNotations.
-Require Import PPCore PPHost Memo MemoProofs Pinned Str Mask IpModel PyLib G_fn_ip RefMask.
+Require Import PPCore PPHost Memo MemoProofs Pinned Str Mask IpModel PyLib G_fn_ip RefMask RefShould.
 
 (* _is_mask accepts exactly the 33 + 33 values "k low ones" / "ones from bit k up", for ALL 2^32 inputs *)
 Theorem C05_is_mask_iff_mask_or_wildcard_shape :
@@ -23,6 +23,15 @@ Theorem C05_skip_iff_mask_or_preserved :
 Proof.
   intros a x. unfold should_anonymize4. rewrite negb_false_iff, orb_true_iff, existsb_exists. reflexivity.
 Qed.
+
+(* TIE A (function level): the GENERATED IpAnonymizer.should_anonymize answers exactly that, on the network objects the constructor stored *)
+Theorem C05_generated_should_anonymize_skips_masks_and_preserved_networks :
+  forall (py_call : pyval -> pyval -> PyLib.res) (fuel : nat) (self : pyval) (nets : list (N * nat)) (x : N),
+  (x < 2 ^ 32)%N -> Forall (fun net => (snd net <= 32)%nat) nets ->
+  py_getattr self "_preserve_addresses" = Normal (VList (map vnet nets)) ->
+  gen_IpAnonymizer__should_anonymize py_call fuel self (VInt (Z.of_N x))
+  = Normal (VTuple [VBool (negb (is_mask x || existsb (in_net x) nets)); self]).
+Proof. exact gen_should_anonymize_refines. Qed.
 
 (* IpAnonymizer.__init__ registers every preserved network as a preserved prefix, hence no address outside a
    preserved network is ever mapped into it (and none inside is mapped out of it), for every salt/H, B, lists *)
@@ -54,6 +63,7 @@ Example C05_instances :
                                   || is_mask (N.lxor (low_ones (N.of_nat k)) (2 ^ N.of_nat i))) (seq 0 32)) (seq 0 33) = true.
 Proof. vm_compute. repeat split; reflexivity. Qed.
 
+Print Assumptions C05_generated_should_anonymize_skips_masks_and_preserved_networks.
 Print Assumptions C05_is_mask_iff_mask_or_wildcard_shape.
 Print Assumptions C05_generated_is_mask_is_the_mask_test.
 Print Assumptions C05_skip_iff_mask_or_preserved.
